@@ -14,6 +14,7 @@ v-once bookkeeping starts empty in every render (evaluatePage, C16).
 import Vuego.Model.Eval
 import Vuego.Generated.Purity
 import Vuego.Generated.Parse
+import Vuego.Generated.ProcessState
 import Vuego.Props.C15
 namespace Vuego.Props.C10
 open Go Vuego
@@ -32,6 +33,14 @@ theorem source_pools_cleared :
 
 /-- rendering works on copies: the caller's map is only read, the cached DOM is deep-cloned before processing and evaluation -/
 theorem source_copies : Generated.callerDataCopied = true ∧ Generated.evaluatesDeepClone = true := by decide
+
+/-- THE PROCESS-WIDE MUTABLE STATE of the engine's packages (root, helpers, reflect, parser, formatter, markdown) is exactly: the three pools
+    (scope maps, interpolation buffers, nodes — `source_pools_cleared` and the pool theorem below), the path cache (its lock discipline is C09's
+    `source_lock_discipline`), and two tables written once at initialisation and only read afterwards (the indentation strings; the
+    fragment-context body node behind its `sync.Once`). Any other package-level cache, table or frame is shared by every engine and every
+    goroutine of the process: one render could reach another through it, so it needs a theorem of its own before this list may grow. -/
+theorem source_process_wide_state : Generated.processWideState =
+    ["helpers.bodyNodeCache", "helpers.bodyNodeOnce", "helpers.nodePool", "vuego.bufferPool", "vuego.indentCache", "vuego.mapPool", "vuego.pathCache"] := by decide
 
 /-! ## pools -/
 
